@@ -465,6 +465,7 @@ fn fs_radix() -> u64 {
         + 3                             // assignments whose right-hand side is a stateful call (plain, mem, under if)
         + 3                             // a delay written directly in an if arm (taken on some samples only)
         + 1                             // a block that starts with an expression statement and then shadows a name
+        + 3                             // an `if` whose condition owns state
 }
 pub fn fs_count(k: u32) -> u64 {
     seq_count(fs_radix(), k)
@@ -645,6 +646,20 @@ fn fs_stmt(c: &mut Ctx, mut o: u64) -> Option<()> {
             c.stmts.push(let_(&w, bin("+", var(&last), num(0.25))));
             c.vars.push(v);
             c.vars.push(w);
+        }
+        10..=12 => {
+            // an `if` whose condition itself owns state (a mem, a counter, a delay), with state in the arms as well
+            let v = c.fresh();
+            c.use_helper("cnt");
+            let (s1, s2, s3) = (c.sites.next(), c.sites.next(), c.sites.next());
+            let (e, what) = match o {
+                10 => (iff(bin(">", E::Mem(Box::new(var(DSP_IN)), s1), num(0.5)), call("cnt", vec![num(1.0)], s2), num(0.0)), "if (mem(x) > 0.5) cnt(1) else 0"),
+                11 => (iff(bin(">", call("cnt", vec![num(1.0)], s1), num(2.5)), num(5.0), num(7.0)), "if (cnt(1) > 2.5) 5 else 7"),
+                _ => (iff(bin(">", E::Delay(3.0, Box::new(var(DSP_IN)), Box::new(num(1.0)), s1), num(0.5)), E::Mem(Box::new(var(DSP_IN)), s2), call("cnt", vec![num(1.0)], s3)), "if (delay(3,x,1) > 0.5) mem(x) else cnt(1)"),
+            };
+            c.ops.push(what.into());
+            c.stmts.push(let_(&v, e));
+            c.vars.push(v);
         }
         _ => {
             // an inner block rebinds the most recent name; the outer binding must be unaffected afterwards
@@ -1125,7 +1140,7 @@ fn mkcounter() -> Item {
 
 // ================================================================== FA: aggregates
 
-const FA_RADIX: u64 = 51;
+const FA_RADIX: u64 = 56;
 pub fn fa_count(k: u32) -> u64 {
     seq_count(FA_RADIX, k)
 }
@@ -1359,6 +1374,39 @@ fn fa_stmt(c: &mut ACtx, o: u64) -> Option<()> {
             let s = c.sites.next();
             c.push(v, ATy::F, E::CallPack("defc".into(), vec![("a".into(), c.f(0)?)], s), "defc({a = a}) with fn defc(a, b = 1 + cos(0) * 2)".into());
         }
+        51 => {
+            // a placeholder in front of a named binder
+            let t = c.last(ATy::T2)?;
+            let q = c.fresh("p");
+            c.ops.push("let (_, q) = pair".into());
+            c.stmts.push(S::Let(Pat::Tuple(vec![Pat::Var("_".into()), Pat::Var(q.clone())]), var(&t)));
+            c.vars.push((q, ATy::F));
+        }
+        52 | 53 => {
+            // placeholders inside a nested pattern: (p, (_, r)) and (_, (q, _))
+            let t = c.last(ATy::T3n)?;
+            let (p, r) = (c.fresh("p"), c.fresh("p"));
+            if o == 52 {
+                c.ops.push("let (p, (_, r)) = nested".into());
+                c.stmts.push(S::Let(Pat::Tuple(vec![Pat::Var(p.clone()), Pat::Tuple(vec![Pat::Var("_".into()), Pat::Var(r.clone())])]), var(&t)));
+                c.vars.push((p, ATy::F));
+                c.vars.push((r, ATy::F));
+            } else {
+                c.ops.push("let (_, (q, _)) = nested".into());
+                c.stmts.push(S::Let(Pat::Tuple(vec![Pat::Var("_".into()), Pat::Tuple(vec![Pat::Var(p.clone()), Pat::Var("_".into())])]), var(&t)));
+                c.vars.push((p, ATy::F));
+            }
+        }
+        54 | 55 => {
+            // an array of pairs read beyond its end (constant index) and with an index that follows the input
+            let a = c.last(ATy::ArrT)?;
+            let (p, q) = (c.fresh("p"), c.fresh("p"));
+            let (i, what) = if o == 54 { (num(7.0), "let (p, q) = array_of_pairs[7] (beyond the end)") } else { (c.f(0)?, "let (p, q) = array_of_pairs[a]") };
+            c.ops.push(what.into());
+            c.stmts.push(S::Let(Pat::Tuple(vec![Pat::Var(p.clone()), Pat::Var(q.clone())]), E::Index(Box::new(var(&a)), Box::new(i))));
+            c.vars.push((p, ATy::F));
+            c.vars.push((q, ATy::F));
+        }
         48 => {
             // a tuple projection used directly as the time operand of a delay
             let t = c.last(ATy::T2)?;
@@ -1553,9 +1601,11 @@ pub struct FtSpec {
     /// FR programs: (n, issued by a task at sample 1 rather than by global code)
     pub burst: Option<(u64, bool)>,
 }
-const FT_TIMES: [f64; 4] = [1.0, 2.0, 3.0, 2.5];
+/// (the last time lies less than 1e-6 below an integer: it still truncates to 2)
+const FT_TIMES: [f64; 5] = [1.0, 2.0, 3.0, 2.5, 2.9999999];
 const FT_PERIODS: [f64; 4] = [0.0, 1.0, 2.0, 3.0];
-const FT_RADIX: u64 = 24;
+const NT: u64 = FT_TIMES.len() as u64;
+const FT_RADIX: u64 = NT * 4 + NT + NT;
 pub fn ft_count(k: u32) -> u64 {
     seq_count(FT_RADIX, k)
 }
@@ -1563,22 +1613,22 @@ pub fn ft_decode(idx: u64, k: u32) -> Option<Gen> {
     let digits = seq_decode(idx, FT_RADIX, k);
     let mut tasks = vec![];
     for (i, d) in digits.iter().enumerate() {
-        if *d < 16 {
+        if *d < NT * 4 {
             tasks.push(FtTask { at: Some(FT_TIMES[(*d / 4) as usize]), chain_delay: 0.0, period: FT_PERIODS[(*d % 4) as usize], from_dsp: None });
-        } else if *d < 20 {
+        } else if *d < NT * 5 {
             if i == 0 {
                 return None;
             }
-            tasks.push(FtTask { at: None, chain_delay: FT_TIMES[(*d - 16) as usize], period: 0.0, from_dsp: None });
+            tasks.push(FtTask { at: None, chain_delay: FT_TIMES[(*d - NT * 4) as usize], period: 0.0, from_dsp: None });
         } else {
-            tasks.push(FtTask { at: None, chain_delay: 0.0, period: 0.0, from_dsp: Some(FT_TIMES[(*d - 20) as usize]) });
+            tasks.push(FtTask { at: None, chain_delay: 0.0, period: 0.0, from_dsp: Some(FT_TIMES[(*d - NT * 5) as usize]) });
         }
     }
     let spec = FtSpec { tasks, local: vec![], burst: None };
     let ops = spec.tasks.iter().enumerate().map(|(i, t)| format!("task{i}: {t:?}")).collect();
     Some(Gen { prog: Prog::default(), family: "FT", inputs: 0, ops, ft: Some(spec), text: None })
 }
-const FL_RADIX: u64 = 8;
+const FL_RADIX: u64 = 2 * NT;
 pub fn fl_count(k: u32) -> u64 {
     seq_count(FL_RADIX, k)
 }
@@ -1586,7 +1636,7 @@ pub fn fl_count(k: u32) -> u64 {
 /// `tick_j@time`, then returns a reader closure; every sequence of requests over 2 closures x 4 times
 pub fn fl_decode(idx: u64, k: u32) -> Option<Gen> {
     let digits = seq_decode(idx, FL_RADIX, k);
-    let local: Vec<(usize, f64)> = digits.iter().map(|d| ((*d / 4) as usize, FT_TIMES[(*d % 4) as usize])).collect();
+    let local: Vec<(usize, f64)> = digits.iter().map(|d| ((*d / NT) as usize, FT_TIMES[(*d % NT) as usize])).collect();
     let ops = local.iter().map(|(j, t)| format!("tick{j}@{}", fmt_num(*t))).collect();
     Some(Gen { prog: Prog::default(), family: "FL", inputs: 0, ops, ft: Some(FtSpec { tasks: vec![], local, burst: None }), text: None })
 }
@@ -1999,7 +2049,7 @@ pub fn fw_decode(idx: u64) -> Option<Gen> {
 // ================================================================== FM: match on number literals
 
 pub fn fm_count() -> u64 {
-    7 * 6 * 2
+    7 * 6 * 2 * 3
 }
 /// FM: `match` on number literals with a wildcard arm. The scrutinee walks over an integer ramp that starts above,
 /// inside or below the literals (and, in the second form, steps by one half), so that values below the smallest
@@ -2018,15 +2068,24 @@ pub fn fm_decode(idx: u64) -> Option<Gen> {
         5 => &["0", "0.5", "2"],
         _ => &["1", "2.5"],
     };
-    let arms: String = lits.iter().enumerate().map(|(i, l)| format!("    {l} => {}.0,\n", (i + 1) * 100)).collect();
+    // arm bodies: a constant; an `if` as the first thing of the arm whose condition becomes negative as the scrutinee
+    // falls; one whose condition is NaN for positive scrutinees
+    let body_form = (idx / 84) % 3;
+    let body = |k: usize| match body_form {
+        0 => format!("{k}.0"),
+        1 => format!("if (2.0 - n) {k}.0 else {}.0", k + 50),
+        _ => format!("if (sqrt(0.0 - n)) {k}.0 else {}.0", k + 50),
+    };
+    let arms: String = lits.iter().enumerate().map(|(i, l)| format!("    {l} => {},\n", body((i + 1) * 100))).collect();
     let start_v = [6.0, 3.0, 1.0, 0.0, -2.0, -6.0][start as usize];
     let step = if half == 0 { "1.0" } else { "0.5" };
     // the scrutinee falls from start_v by `step` per sample
     let src = format!(
-        "fn ramp() {{\n  self + {step}\n}}\nfn pick(n) {{\n  match n {{\n{arms}    _ => 900.0\n  }}\n}}\nfn pick2(a: float, b: float) {{\n  match (a, b) {{\n    (1, 1) => 10.0,\n    (1, 2) => 20.0,\n    (2, 1) => 30.0,\n    _ => 90.0\n  }}\n}}\nfn dsp(x) {{\n  let n = {} - ramp()\n  (pick(n), pick2(n, 1.0), pick2(2.0, n))\n}}\n",
-        fmt_num(start_v + if half == 0 { 1.0 } else { 0.5 })
+        "fn ramp() {{\n  self + {step}\n}}\nfn pick(n) {{\n  match n {{\n{arms}    _ => {wild}\n  }}\n}}\nfn pick2(a: float, b: float) {{\n  match (a, b) {{\n    (1, 1) => 10.0,\n    (1, 2) => 20.0,\n    (2, 1) => 30.0,\n    _ => 90.0\n  }}\n}}\nfn dsp(x) {{\n  let n = {} - ramp()\n  (pick(n), pick2(n, 1.0), pick2(2.0, n))\n}}\n",
+        fmt_num(start_v + if half == 0 { 1.0 } else { 0.5 }),
+        wild = body(900)
     );
-    let ops = vec![format!("literals {lits:?}"), format!("scrutinee starts at {start_v} and falls by {step} per sample")];
+    let ops = vec![format!("literals {lits:?}"), format!("scrutinee starts at {start_v} and falls by {step} per sample"), ["constant arm bodies", "arm bodies `if (2.0 - n) ..`", "arm bodies `if (sqrt(0.0 - n)) ..`"][body_form as usize].to_string()];
     Some(Gen { prog: Prog::default(), family: "FM", inputs: 1, ops, ft: None, text: Some(src) })
 }
 
